@@ -41,7 +41,7 @@ def ro_shape(mid, roid):
 
 def abstract_msg(kind, mid):
     m = project.empty_msg({"ok": "StoryAppend", "warn": "StoryDelete", "fail": "StoryReplace",
-                           "roDelete": "RunningOrderEnd"}[kind])
+                           "roDelete": "RunningOrderEnd", "roReplace": "RunningOrderReplace"}[kind])
     if kind == "ok":
         m["carried"] = [story_node("N%d" % mid)]
     elif kind == "warn":
@@ -49,6 +49,8 @@ def abstract_msg(kind, mid):
     elif kind == "fail":
         m["story"] = {"shape": "id", "id": "SU"}
         m["carried"] = [story_node("N%d" % mid)]
+    elif kind == "roReplace":
+        m["carried"] = [node("roID", "RO1", "="), node("roSlug", NONE, "x:replSlug"), story_node("R1"), story_node("R2")]
     else:
         m["carried"] = [node("roDelete", NONE, "x:roDelete")]
     return m
@@ -193,7 +195,7 @@ def run_collection(cid, docs, allow, strict, via, seed, tracer, tmproot):
                     if docs[i]["kind"] == "roCreate":
                         ref = RunningOrder.from_string(texts[i])
                 for i in order:
-                    if docs[i]["kind"] == "roCreate":
+                    if docs[i]["kind"] == "roCreate" or ref is None:
                         continue
                     try:
                         ref = ref + MosFile.from_string(texts[i])
